@@ -2,7 +2,6 @@ package parse
 
 import (
 	"bytes"
-	"errors"
 )
 
 // A tagParser can parse the body of a tag, returning the resulting Node or an error.
@@ -251,10 +250,10 @@ func parseFor(t *Tree, start Pos) (*ForNode, error) {
 	if err != nil {
 		return nil, err
 	}
-	if nam, ok := nam.(*NameExpr); ok {
-		vn = nam.Name
+	if n, ok := nam.(*NameExpr); ok {
+		vn = n.Name
 	} else {
-		return nil, errors.New("parse error: a parse error occured, expected name")
+		return nil, newUnexpectedExprError(nam, "name")
 	}
 	nxt := t.peekNonSpace()
 	if nxt.tokenType == tokenPunctuation && nxt.value == "," {
@@ -264,10 +263,10 @@ func parseFor(t *Tree, start Pos) (*ForNode, error) {
 		if err != nil {
 			return nil, err
 		}
-		if nam, ok := nam.(*NameExpr); ok {
-			vn = nam.Name
+		if n, ok := nam.(*NameExpr); ok {
+			vn = n.Name
 		} else {
-			return nil, errors.New("parse error: a parse error occured, expected name")
+			return nil, newUnexpectedExprError(nam, "name")
 		}
 	}
 	tok := t.nextNonSpace()
@@ -285,7 +284,7 @@ func parseFor(t *Tree, start Pos) (*ForNode, error) {
 	var ifCond Expr
 	if tok.tokenType == tokenName {
 		if tok.value != "if" {
-			return nil, errors.New("parse error: a parse error occured")
+			return nil, newUnexpectedValueError(tok, "if")
 		}
 		ifCond, err = t.parseExpr()
 		if err != nil {
